@@ -75,7 +75,7 @@ ENGINE_OPS = {
     "arts": ("artsp", "artsi", "artsdemop", "artsdemoi"),
     "det": ("det", "detdiag", "detdup", "detep"),
     "crash": ("cm", "co", "cof", "raw", "watch"),
-    "overloads": ("ovl", "ovlnc"),
+    "overloads": ("ovl", "ovlnc", "ovlws"),
 }
 
 
